@@ -207,15 +207,21 @@ def check_case(ctx: runner.Ctx, case):
     datum = codec.build(case["datum"], e)
     outcome = "returned"
     exc = None
+    # RecursionError belongs to the resource-exhaustion zone only when the datum can be deep for the type: an over-deep datum,
+    # or a str fed to a recursive list-layout model (infinitely deep: 'a'[0] == 'a').  A shallow datum against a type without
+    # recursion that exhausts the stack of a helper (the regex compiler on a deeply nested PATTERN) is an ordinary foreign error.
+    deep_zone = datum_depth(case["datum"]) > 20 or tspec.contains(t, "ref")
     try:
         ld(datum)
-    except RecursionError:
-        ctx.count("recursion_error_skipped")
-        return
+    except RecursionError as ex:
+        if deep_zone:
+            ctx.count("recursion_error_skipped")
+            return
+        exc = ex
+        outcome = "violation"
     except BaseException as ex:  # noqa: BLE001
-        if any(isinstance(n, RecursionError) for n in all_nodes(ex)):
-            # debug_trail=ALL collects the RecursionError of an over-deep datum into the group of an outer model; a str
-            # fed to a recursive list-layout model is infinitely deep ('a'[0] == 'a'): same resource-exhaustion zone
+        if deep_zone and any(isinstance(n, RecursionError) for n in all_nodes(ex)):
+            # debug_trail=ALL collects the RecursionError of an over-deep datum into the group of an outer model
             ctx.count("recursion_error_skipped")
             return
         exc = ex
